@@ -113,6 +113,135 @@ def relation(pre, call):
     return "unregistered"
 
 
+# ------------------------------------------------------------------------------------------------ racing requests
+OLD = ["n3", "n4", "n2"]
+SRV = {"n1": "a1", "n2": "a2", "n3": "a3", "n4": "a4"}
+OUTER_SERVERS, INNER_SERVERS = ["n1", "n2"], ["n2", "n1"]
+KINDS = ["publish", "unpublish", "release"]
+
+
+def race_cases(ck):
+    setups = {
+        "registered+routes": ("g1", [{"op": "generate", "c": "A", "h": "g1", "servers": []}, {"op": "publish", "c": "A", "h": "g1", "servers": OLD}]),
+        "custom+routes": ("x1", [{"op": "validate", "c": "A", "h": "x1", "servers": []}, {"op": "publish", "c": "A", "h": "x1", "servers": OLD}]),
+        "registered": ("g1", [{"op": "generate", "c": "A", "h": "g1", "servers": []}]),
+        "unregistered": ("g1", []),
+    }
+    out = []
+    for name, (h, setup) in setups.items():
+        for ko in KINDS:
+            for ki in KINDS:
+                if name in ("registered", "unregistered") and not ck.thorough and (ko, ki) not in (("publish", "release"), ("release", "publish"), ("publish", "publish")):
+                    continue
+                out.append({"name": "%s:%s|%s" % (name, ko, ki), "same": True, "setup": setup,
+                            "outer": {"op": ko, "c": "A", "h": h, "servers": OUTER_SERVERS if ko == "publish" else []},
+                            "inner": {"op": ki, "c": "A", "h": h, "servers": INNER_SERVERS if ki == "publish" else []}})
+    # the other client racing on the same hostname (no common lease: judged by the statement only)
+    h, setup = setups["registered+routes"]
+    for ko in KINDS:
+        for ki in KINDS:
+            if not ck.thorough and "publish" not in (ko, ki):
+                continue
+            out.append({"name": "foreign:%s|%s" % (ko, ki), "same": False, "setup": setup,
+                        "outer": {"op": ko, "c": "A", "h": h, "servers": OUTER_SERVERS if ko == "publish" else []},
+                        "inner": {"op": ki, "c": "B", "h": h, "servers": INNER_SERVERS if ki == "publish" else []}})
+    return out
+
+
+def _abs_routes(case, routes, final):
+    """route table of the hostname -> who wrote each slot: 0 nobody, -1 the setup, 1 / 2 the outer / inner request"""
+    out = []
+    for i, r in enumerate(routes):
+        if r["client"] == "none":
+            out.append(0)
+            continue
+        who = -99
+        if r["client"] == "A" and i < len(OLD) and r["server"] == SRV[OLD[i]]:
+            who = -1
+        if final:
+            for rid, k in ((1, case["outer"]), (2, case["inner"])):
+                if k["op"] == "publish" and i < len(k["servers"]) and r["server"] == SRV[k["servers"][i]] and r["client"] == k["c"]:
+                    who = rid
+        out.append(who)
+    return out
+
+
+def races(ck, binary):
+    cases = race_cases(ck)
+    if ck.replay is not None:
+        cases = [ck.replay["case"]]
+    recs = ck.drive(binary, ["race"], input_lines=[{"setup": c["setup"], "outer": c["outer"], "inner": c["inner"]} for c in cases], timeout=1500)
+    byi = {x["i"]: x["o"] for x in recs if "i" in x}
+    if len(byi) != len(cases):
+        raise vf.Infra("driver answered %d of %d races\n%s" % (len(byi), len(cases), getattr(ck, "last_stderr", "")[-2000:]))
+    slist, sidx = [], {}
+
+    def state_index(st):
+        k = key(st)
+        if k not in sidx:
+            slist.append(st)
+            sidx[k] = len(slist)
+        return sidx[k]
+    obs, where, lines, line_of = [], [], [], {}
+    for ci, c in enumerate(cases):
+        h, cl = c["outer"]["h"], c["outer"]["c"]
+        for run in byi[ci]:
+            npre, npost = norm_obs(run["pre"]), norm_obs(run["post"])
+            obs.append({"pre": state_index({k: npre[k] for k in "hrxc"}), "post": state_index({k: npost[k] for k in "hrxc"}),
+                        "a": c["outer"], "aok": run["outerOk"], "b": c["inner"], "bok": run["innerOk"]})
+            where.append((ci, run))
+            ck.count("race:%s:%s" % (c["name"], run["before"]), run["before"] not in ("acq", "end"))
+            if not c["same"]:
+                continue
+            if any(e["a"] == "?" for e in run["events"]):
+                raise vf.Infra("race %s: operation outside the specification's alphabet: %s" % (c["name"], [e.get("raw") for e in run["events"] if e["a"] == "?"]))
+            line_of[len(lines) + 1] = (ci, run)
+            lines.append({"t": "reset", "kinds": [c["outer"]["op"], c["inner"]["op"]], "reg": h in run["pre"]["hostnames"][cl],
+                          "custom": run["pre"]["custom"][h] == cl, "routes": _abs_routes(c, run["pre"]["routes"][h], False)})
+            for e in run["events"]:
+                lines.append({"t": "ret", "r": e["r"], "res": e["res"]} if e["a"] == "ret" else {"t": "op", "r": e["r"], "a": e["a"], "i": e["i"], "res": e["res"]})
+            lines.append({"t": "end", "reg": h in run["post"]["hostnames"][cl], "custom": run["post"]["custom"][h] == cl,
+                          "routes": _abs_routes(c, run["post"]["routes"][h], True)})
+    # the statement, on the observed outcomes
+    r2 = ck.tlc("TunnelCtl", "MC_TunnelCtl_race_obs.cfg", timeout=900, count=False,
+                files={"obs_race.ndjson": "\n".join(json.dumps(x) for x in obs) + "\n",
+                       "obs_tunctl_states.ndjson": "\n".join(json.dumps(x) for x in slist) + "\n"})
+    verdict = {x["c"] - 1: x["e"] for x in r2.printed}
+    if len(verdict) != len(obs):
+        raise vf.Infra("validator judged %d of %d races" % (len(verdict), len(obs)))
+    nviol = 0
+    for n, (ci, run) in enumerate(where):
+        c, v = cases[ci], verdict[n]
+        if n % max(1, len(where) // 4) == 0:
+            ck.sample({"race": c["name"], "inner_request_ran_before_outer_operation": run["before"], "outer_ok": run["outerOk"], "inner_ok": run["innerOk"],
+                       "operations": " ".join("%d:%s%s=%s" % (e["r"], e["a"], e["i"] or "", e["res"]) for e in run["events"]), "verdict": v})
+        if not (v["ab"] or v["ba"]):
+            nviol += 1
+            h = c["outer"]["h"]
+            ck.violation("C26:race:%s|%s:%s:%s" % (c["outer"]["op"], c["inner"]["op"], "same-client" if c["same"] else "other-client",
+                                                  "both-ok" if run["outerOk"] and run["innerOk"] else "one-ok" if run["outerOk"] or run["innerOk"] else "none-ok"),
+                         "%s (by %s) and %s (by %s) of hostname %s at the same time (the second ran before operation %d '%s' of the first): outcomes %s / %s, "
+                         "afterwards registered to %s, routes %s, custom binding %s - that is the result of neither order of the two requests; operations: %s"
+                         % (c["outer"]["op"], c["outer"]["c"], c["inner"]["op"], c["inner"]["c"], h, run["at"], run["before"], run["codes"][0], run["codes"][1],
+                            [k for k in CLIENTS if h in run["post"]["hostnames"][k]], [[x["client"], x["server"]] for x in run["post"]["routes"][h]],
+                            run["post"]["custom"][h], " ".join("%d:%s%s=%s" % (e["r"], e["a"], e["i"] or "", e["res"]) for e in run["events"])),
+                         {"race": True, "case": c})
+    # the operations, against TunnelRace
+    r3 = ck.tlc("Trace_TunnelRace", "Trace_TunnelRace.cfg", files={"trace.ndjson": "\n".join(json.dumps(x) for x in lines) + "\n"}, workers=1, count=False)
+    vd = [x for x in r3.printed if x.get("t") == "verdict"]
+    if not vd or r3.error:
+        raise vf.Infra("trace validator gave no verdict: %s" % (r3.error,))
+    ck.traces += len(where)
+    ck.extra["race_runs"] = len(where)
+    ck.extra["race_operations_validated"] = sum(1 for x in lines if x["t"] == "op")
+    if vd[0]["bad"] and not nviol:
+        b = vd[0]["bad"][0]
+        start = max(k for k in line_of if k <= b)
+        ci, run = line_of[start]
+        raise vf.Infra("race %s (position %s): recorded line %s is not a step of TunnelRace; run: %s" % (
+            cases[ci]["name"], run["before"], json.dumps(lines[b - 1]), " ".join("%d:%s%s=%s" % (e["r"], e["a"], e["i"] or "", e["res"]) for e in run["events"])))
+
+
 def run(ck):
     ck.rule = ("TLC builds the state graph of the control-plane model (2 registered clients, hostnames g1/g2 handed out by GenerateHostname and the "
                "custom hostname x1, requested server lists from a menu with duplicates, a shared address under two identities, 4 distinct "
@@ -120,8 +249,12 @@ def run(ck):
                "MaxLevel steps, proves every model transition satisfies the statement, and prints every edge; walks covering every edge, plus "
                "seeded -simulate behaviours, are executed on the real server through the real twirp client (every step with a claimed peer "
                "identity that is the caller's, the other client's or junk); the DHT content is projected after every step and every recorded "
-               "step (pre, request, outcome, post) is judged in TLC by the predicates of the specification; non-trivial = distinct "
-               "(abstract pre-state, request) pairs")
+               "step (pre, request, outcome, post) is judged in TLC by the predicates of the specification.  Racing requests: TunnelRace models the "
+               "handlers at the grain of DHT operations (TLC: every interleaving of 2 and 3 requests of one client is linearizable because of the lease, the "
+               "variant without it is not); on the real handlers every ordered pair of publish / unpublish / release runs with the whole second request placed "
+               "before each DHT operation of the first (and after it), from 4 pre-states and for the other client; the recorded operations are validated "
+               "against TunnelRace, the outcomes judged 'one before the other' by the statement's predicates; non-trivial = distinct "
+               "(abstract pre-state, request) pairs / race positions strictly inside the first request")
     walks = []
     # the driver build and the seeded simulation run while TLC builds the graph
     sdir = ck.path("spec")
@@ -148,6 +281,18 @@ def run(ck):
         return val
 
     tb = in_bg("build", lambda: ck.build("tunctl"))
+    if ck.replay is not None and ck.replay.get("race"):
+        races(ck, join(tb, "build"))
+        return
+    if ck.replay is None:
+        # racing requests, design level: every interleaving of two and three requests of one client keeps the statement
+        # because of the lease; without it (variant) TLC must find the schedule that breaks it
+        rr = ck.tlc("MC_TunnelRace", "MC_TunnelRace.cfg", workers=4, timeout=900)
+        if rr.error:
+            raise vf.Infra("TunnelRace: the design as specified violates %s" % rr.error)
+        rv = ck.tlc("MC_TunnelRace", "MC_TunnelRace_nolease.cfg", workers=2, timeout=600, allow_error=True, count=False)
+        if not rv.error or "Linearizable" not in str(rv.error.get("name", "")):
+            raise vf.Infra("TunnelRace without the lease is expected to violate Linearizable (the property is otherwise checked vacuously): %s" % (rv.error,))
     if ck.replay is not None:
         walks = [ck.replay["steps"]]
     else:
@@ -174,6 +319,8 @@ def run(ck):
         ck.exhaustive = True   # of the bounded graph (every edge executed at least once)
 
     b = join(tb, "build")
+    if ck.replay is None:
+        races(ck, b)
     # the identity the peer claims at each step is part of the input (so a replay repeats it)
     for w in walks:
         for st in w:
@@ -269,6 +416,6 @@ def run(ck):
         "DESIGN 4.0: after a publish of k servers slots k+1..3 left by an earlier publish are not judged (they may stay or be cleared, but this publish must not fill them); the order of the servers among slots 1..k is not judged",
         "a route 'names a server' when its tunnel and chord destinations equal that server's published destination record, and 'names the caller' when its "
         "client destination equals the identity derived from the verified certificate",
-        "RPCs of one history are issued one after the other (the lease is exercised by the environment holding it, not by racing requests)",
+        "histories issue their RPCs one after the other; racing requests are the separate family above: two requests, the second one atomic inside the first (finer interleavings only in the TunnelRace model)",
         "the DHT is a chord.VNode over the real kv/memory store on one node; the proof of work and the DNS answer of AcmeValidate are valid in every history",
     ]
